@@ -4,6 +4,7 @@ pub mod c01;
 pub mod c03;
 pub mod c13;
 pub mod c19;
+pub mod c20;
 
 pub fn run(ctx: &Ctx) -> bool {
     match ctx.prop {
@@ -11,6 +12,7 @@ pub fn run(ctx: &Ctx) -> bool {
         "C03" => c03::run(ctx),
         "C13" => c13::run(ctx),
         "C19" => c19::run(ctx),
+        "C20" => c20::run(ctx),
         _ => return false,
     }
     true
@@ -19,6 +21,7 @@ pub fn run(ctx: &Ctx) -> bool {
 /// child-process entry points (used by monitors that need process isolation)
 pub fn child(args: &[String]) -> i32 {
     match args.first().map(|s| s.as_str()) {
+        Some("c20") => c20::child(args),
         _ => {
             eprintln!("unknown child {:?}", args);
             2
